@@ -614,7 +614,7 @@ RUNNER_FP = [
     [r"^react::system_command_spawning::SystemCommandCleanup::run$",
      [r"^react::commands::end_\w+$", r"^react::syscommand_runner::verif_h::cleanup_\d$", r"verif_h::fp_never$"]],
     [r"^<std::boxed::Box<dyn for<'a> std::ops::FnMut\(&'a mut bevy::world::World, react::system_command_spawning::SystemCommandCleanup\).*::call_mut$",
-     [r"^react::syscommand_runner::verif_h::(logger|reenter|runner_\w+|diag_\w+)::\{closure#\d+\}$"]],
+     [r"^react::syscommand_runner::verif_h::(logger|reenter|step_\w+|runner_\w+|diag_\w+)::\{closure#\d+\}$"]],
     [r"^bevy::world::World::flush_commands$", [r"^<\(.+\) as bevy::world::ApplyList>::apply_cmd$"]],
     [r"^bevy::world::CommandQueue::apply$", [r"^<\(.+\) as bevy::world::ApplyList>::apply_cmd$"]],
 ]
@@ -692,6 +692,21 @@ OBLIGATIONS.append(_runner("runner.nested_inline", "runner_nested_inline", ["C09
                            "postponed (two real runner levels through the real SystemCommand::apply)", ("thorough",), witness=_W_DEPTH))
 # runner.replay_nested_postpones_* (a replayed run postponing into the live buffer): written, exceed 14 GB (VecDeque::append of two
 # non-empty deques); the conservation they target is decided at the queue level by cmdqueue.cold_start / cmdqueue.fifo.
+for root in (True, False):
+    OBLIGATIONS.append(_runner(
+        f"runner.self_despawn_{'root' if root else 'nested'}", f"runner_step_self_despawn_{'root' if root else 'nested'}",
+        ["C11", "C02", "C05", "C18", "C15"],
+        "the running system despawns its own entity; one command postponed for itself, one for another (lost) system; tree position "
+        + ("0" if root else "2"),
+        "the runner still completes: the system ran once; at the root the counter is reset, nothing stays postponed, the other system's "
+        "leftover is discarded through its own setup+cleanup and the dead system's postponed command is released exactly once; inside a "
+        "tree no postponed command vanishes",
+        ("quick", "thorough") if root else ("thorough",),
+        extra_stub="syscommand_runner (the ORIGINAL) -> record_nested", witness=[["runner", "self_despawn_residue"], ["once", "twice"]]))
+OBLIGATIONS.append(_runner(
+    "runner.replay_4_root", "runner_step_replay_4_root", ["C02", "C09", "C12", "C05", "C11", "C03"],
+    "4 postponed commands, each symbolically for A or B, distinct setup and cleanup per command; tree position 0", _REPLAY, ("thorough",),
+    extra_stub="syscommand_runner (the ORIGINAL) -> record_nested", witness=_W_REPLAY))
 OBLIGATIONS.append(_runner(
     "runner.poll_reaction", "runner_poll_reaction_for_same_system", ["C02", "C08", "C09"],
     "root call for an idle system A; the runner's FIRST poll schedules (and, as the real poll's flush does, applies) one reaction for A itself",
@@ -701,10 +716,11 @@ OBLIGATIONS[-1]["stubs"] = [x for x in OBLIGATIONS[-1]["stubs"] if not x.startsw
     "schedule_removal_and_despawn_reactors -> stub_poll_schedules_reaction: the first poll applies one reaction for the polled system "
     "through the real runner (nested call), later polls do nothing"]
 OBLIGATIONS.append(_runner(
-    "runner.polls_after_run", "runner_polls_after_the_run", ["C08", "C07", "C10"],
+    "runner.polls_after_run", "runner_polls_after_the_run", ["C08", "C07", "C10", "C04", "C03"],
     "idle or (symbolically) stale target; tree position symbolic in {0, 3}; garbage collection and the removal/despawn poll replaced by marks",
     "after the system and its cleanup (or an aborted command's cleanup) the runner collects garbage and then polls removals/despawns "
-    "before it returns - so what a run releases, removes or despawns is reacted to within the same tree",
+    "before it returns - so what a run releases, removes or despawns is reacted to within the same tree; and NOTHING (no collection, no "
+    "poll, hence no other system's run) happens between the command's setup, which exposes its event data, and the reacting system's run",
     witness=[["runner", "poll_same_system"]]))
 OBLIGATIONS[-1]["stubs"] = [x for x in OBLIGATIONS[-1]["stubs"] if not x.startswith(("schedule_removal", "garbage_collect"))] + [
     "garbage_collect_entities -> mark 31, schedule_removal_and_despawn_reactors -> mark 32 (only their POSITION in the runner is the subject)"]
@@ -791,7 +807,7 @@ _QUICK_ONLY_FOR = {
     "desp.witness": ["C12"], "ent.witness": ["C12"], "bundle.reactor_types": ["C06", "C16"],
     "rc.broadcast_0_2": ["C01", "C05"], "rc.broadcast_2_1": ["C01", "C05", "C03"],
     # runner steps / command application / setup-cleanup pairs (measured 25-150 s each)
-    "runner.replay_1_nested": ["C09"], "runner.replay_2_root": ["C02", "C11", "C05"], "runner.replay_3_root": ["C12", "C09"], "runner.poll_reaction": ["C08", "C02"], "runner.polls_after_run": ["C08", "C07"],
+    "runner.replay_1_nested": ["C09"], "runner.replay_2_root": ["C02", "C11", "C05"], "runner.replay_3_root": ["C12", "C09"], "runner.poll_reaction": ["C08", "C02"], "runner.polls_after_run": ["C08", "C07", "C04"], "runner.self_despawn_root": ["C11"],
     "runner.missing_root": ["C02", "C18"], "runner.entity_without_system": ["C11", "C05"],
     "runner.busy_nested": ["C02", "C09", "C12"], "runner.plain_run": ["C02", "C13", "C04", "C09"], "runner.witness": ["C02", "C09"],
     "cmd.apply_system_command": ["C02"], "cmd.apply_event_command": ["C05", "C12"], "cmd.apply_reaction_resource": ["C02"],
